@@ -65,6 +65,11 @@ Definition mux_run (fx : bool) (tables : list (list bytes)) (sc : script) (svc :
   | _ => (d, remaining s, [])
   end.
 
+(* what the harness observes besides the decision: whether the listener closed
+   the connection, and how many service queues received it *)
+Definition dec_closed (d : decision) : bool := match d with DNone => true | _ => false end.
+Definition dec_handed (d : decision) : nat := match d with DSvc _ => 1%nat | _ => O end.
+
 (* -------- the tables registered in production *)
 Definition str (s : list Z) : bytes := s.
 
@@ -112,6 +117,21 @@ Definition http_table : list bytes :=
 Definition prod_tables : list (list bytes) := [rtsp_table; http_table].
 Definition SVC_RTSP : nat := 0%nat.
 Definition SVC_HTTP : nat := 1%nat.
+
+Definition rtsp_methods : list bytes :=
+  [ M_DESCRIBE; M_ANNOUNCE; M_SETUP; M_PLAY; M_PAUSE; M_TEARDOWN;
+    M_GET_PARAMETER; M_SET_PARAMETER; M_RECORD; M_REDIRECT ].
+Definition http_methods_other : list bytes :=
+  [ M_GET; M_HEAD; M_POST; M_PATCH; M_PUT; M_DELETE; M_TRACE; M_CONNECT ].
+
+(* an OPTIONS request line is RTSP exactly when its target is "*" with an RTSP
+   version, or an rtsp:// URL (either case of the four letters, as registered) *)
+Definition options_is_rtsp (target version : bytes) : bool :=
+  (bytes_eqb [STAR] target && (is_prefix RTSP_UP version || is_prefix RTSP_LO version))
+  || is_prefix (RTSP_LO ++ COLON_SS) target || is_prefix (RTSP_UP ++ COLON_SS) target.
+Definition CR : Z := 13.
+Definition LF : Z := 10.
+Definition no_sp (s : bytes) : bool := negb (existsb (Z.eqb SP) s).
 
 (* -------- specification of the routing decision on the client's byte stream:
    the first registered table holding a string the stream starts with *)
